@@ -148,6 +148,17 @@ impl NamespaceStates {
         self.0.remove(namespace).is_some()
     }
 
+    /// Verification hook: the running origin (if any) and the resync flag of a peer.
+    #[cfg(iroh_docs_verif)]
+    pub fn verif_peek(&mut self, namespace: &NamespaceId, node: EndpointId) -> Option<(Option<Origin>, bool)> {
+        let state = self.entry(namespace, node)?;
+        let origin = match &state.state {
+            SyncState::Idle => None,
+            SyncState::Running { origin, .. } => Some(origin.clone()),
+        };
+        Some((origin, state.resync_requested))
+    }
+
     /// Get the [`PeerState`] for a namespace and node.
     /// If the namespace is syncing and the node so far unknown, initialize and return a default [`PeerState`].
     /// If the namespace is not syncing return None.
